@@ -281,10 +281,11 @@ class CSSImportRule(cssrule.CSSRule):
                 # use cwd instead
                 parentHref = css_parser.helper.path2url(os.getcwd()) + '/'
 
-            fullhref = urljoin(parentHref, self.href)
-
             # all possible exceptions are ignored
             try:
+                # a malformed href (e.g. "//[") makes urlparse raise ValueError
+                fullhref = urljoin(parentHref, self.href)
+
                 usedEncoding, enctype, cssText = \
                     self.parentStyleSheet._resolveImport(fullhref)
 
